@@ -139,3 +139,9 @@ Definition in_range (n : nat) (rt : rangeType) (p : nat * nat) : bool :=
 (** two invocations share an index *)
 Definition share_index (p q : nat * nat) : bool :=
   (fst p =? fst q) || (fst p =? snd q) || (snd p =? fst q) || (snd p =? snd q).
+
+(** the argument init() is called with: min(numProcessors, gridSize/2) for the owning constructor, the machine's
+    processor count [nproc] for the constructor taking a ParallelExecutor *)
+Definition p2d_np (gridSize numProcessors : nat) : nat := Nat.min numProcessors (gridSize / 2).
+Definition p2d_init_np (ext : bool) (gridSize numProcessors nproc : nat) : nat :=
+  if ext then nproc else p2d_np gridSize numProcessors.
